@@ -481,6 +481,83 @@ def job_deriv_allN(seed):
     return obs
 
 
+def job_linear_grid_allN(seed):
+    """LinSpline::Interpolate and Spline::GenerateGrid for every size (per-iteration contracts): the line of interval i passes through both of its data points; grid point i is min + i*h and
+    the last point is max"""
+    import z3
+    rvc.reset()
+    obs = []
+    isym, nsym = sp.Symbol('i', integer=True, nonnegative=True), sp.Symbol('N', integer=True, positive=True)
+    # --- linear spline
+    rel = 'tools/src/libtools/linspline.cc'
+    fns = rvc.functions(rvc.ast(rel, 'LinSpline'))
+    fn = fns['Interpolate'][0]
+    stmts = rvc.body_of(fn)['inner']
+    loops = [k for k, st in enumerate(stmts) if st['kind'] == 'ForStmt']
+    if len(loops) != 1:
+        raise core.Undecided('LinSpline::Interpolate: one loop expected')
+    x, y = FunVec('x', isym, nsym), FunVec('y', isym, nsym)
+    av, bv = FunVec('a', isym, nsym), FunVec('b', isym, nsym)
+    this = {'r_': x, 'a': av, 'b': bv}
+    P = rvc.Paths(); P.start()
+    rvc.CTX.base = [z3.Int('N') >= 2, z3.Int('i') >= 0, z3.Int('i') <= z3.Int('N') - 2]
+    ex = Exec({'x': x, 'y': y, 'N': SInt(nsym)}, {'decide': P.decide}, fns, this)
+    loop = stmts[loops[0]]
+    ex.env[loop['inner'][0]['inner'][0]['name']] = SInt(isym)
+    ex.stmt(loop['inner'][4])
+    mf = fn_meta(fns, 'LinSpline', ['Interpolate', 'Calculate'], rel)
+    okw = list(av.store) == ['i'] and list(bv.store) == ['i']
+    o = Ob('C12.linear.allN/write', 'LinSpline::Interpolate', 'iteration i writes slope and intercept of interval i only', 'RVC', 'symbolic execution', core.PROVED if okw else core.REFUTED, 0, '%s %s' % (list(av.store), list(bv.store)), witness=None if okw else {})
+    o['functions'] = mf; obs.append(o)
+    if okw:
+        r = sp.Symbol('r', real=True)
+        exs = Exec({}, {'getInterval': lambda o_, rv: SInt(isym)}, fns, this)
+        val = sp.sympify(D.lift(exs.call_fn(exs.pick_method('Calculate', 1), [D(r)], this)).v)
+        for nm, k in (('left', 0), ('right', 1)):
+            o = rvc.identity('C12.linear.allN/value.%s' % nm, 'LinSpline::Interpolate', 'on interval i the line takes the data value at the %s end, on every interval of every grid (so the spline interpolates and is continuous)' % nm,
+                             val.subs(r, x.get(SInt(isym + k)).v), y.get(SInt(isym + k)).v, seed)
+            o['functions'] = mf; obs.append(o)
+    # --- GenerateGrid: loop invariant r_init == min + i*h
+    rel2 = 'tools/src/libtools/spline.cc'
+    fns2 = rvc.functions(rvc.ast(rel2, 'Spline::GenerateGrid'))
+    fn2 = fns2['GenerateGrid'][0]
+    st2 = rvc.body_of(fn2)['inner']
+    lp = [k for k, st in enumerate(st2) if st['kind'] == 'ForStmt']
+    if len(lp) != 1:
+        raise core.Undecided('Spline::GenerateGrid: one loop expected')
+    mn, mx, h = sp.Symbol('gmin', real=True), sp.Symbol('gmax', real=True), sp.Symbol('gstep', positive=True)
+    grid = FunVec('grid', isym, nsym)
+    sizes = []
+    cb = {'to_int': lambda v: SInt(nsym), 'resize': lambda o_, k: sizes.append(SInt.ex(k)), 'size': lambda o_: SInt(nsym)}
+    this2 = {'r_': grid}
+    ex2 = Exec({'min': D(mn), 'max': D(mx), 'h': D(h)}, cb, fns2, this2)
+    for st in st2[:lp[0]]:
+        ex2.stmt(st)
+    mf2 = fn_meta(fns2, 'Spline', ['GenerateGrid'], rel2)
+    loop2 = st2[lp[0]]
+    ex2.stmt(loop2['inner'][0]) if loop2['inner'][0].get('kind') else None          # the init expression: r_init = min, i = 0
+    ok0 = rvc.nf_zero(D.lift(ex2.env['r_init']).v - mn) and rvc._i(ex2.env['i']) == 0 and sizes == [nsym]
+    o = Ob('C12.grid.allN/entry', 'Spline::GenerateGrid', 'the grid is resized to the computed size and the loop starts with r_init = min, i = 0 (invariant r_init == min + i*h holds)', 'RVC', 'symbolic execution', core.PROVED if ok0 else core.REFUTED, 0, str(sizes), witness=None if ok0 else {})
+    o['functions'] = mf2; obs.append(o)
+    ex2.env['i'] = SInt(isym); ex2.env['r_init'] = D(mn + isym * h)
+    ex2.stmt(loop2['inner'][4]); ex2.expr(loop2['inner'][3])
+    okg = list(grid.store) == ['i'] and rvc.nf_zero(grid.store['i'].v - (mn + isym * h)) and sp.expand(SInt.ex(ex2.env['i']) - isym - 1) == 0 and rvc.nf_zero(D.lift(ex2.env['r_init']).v - (mn + (isym + 1) * h))
+    o = Ob('C12.grid.allN/step', 'Spline::GenerateGrid', 'a pass under the invariant writes grid point i = min + i*h and re-establishes the invariant for i+1', 'RVC', 'symbolic execution + normal form', core.PROVED if okg else core.REFUTED, 0, str(grid.store)[:200], witness=None if okg else {})
+    o['functions'] = mf2; obs.append(o)
+    grid.store.clear()
+    ex2.env['i'] = SInt(nsym - 1)                      # loop exit: i == size - 1
+    ret = None
+    try:
+        for st in st2[lp[0] + 1:]:
+            ex2.stmt(st)
+    except Ret as rr:
+        ret = rr.v
+    oke = list(grid.store) == ['N-1'] and rvc.nf_zero(grid.store['N-1'].v - mx) and sp.expand(SInt.ex(ret) - nsym) == 0
+    o = Ob('C12.grid.allN/last', 'Spline::GenerateGrid', 'after the loop the last grid point is set to max exactly and the size is returned', 'RVC', 'symbolic execution', core.PROVED if oke else core.REFUTED, 0, '%s ret=%s' % (grid.store, ret), witness=None if oke else {})
+    o['functions'] = mf2; obs.append(o)
+    return obs
+
+
 def replay_periodic(obs):
     bad = [o for o in obs if o['status'] == core.REFUTED]
     if not bad:
@@ -945,7 +1022,7 @@ def jobs_rvc(tier, seed):
 
 
 def run(tier, seed, only=None):
-    jobs = jobs_rvc(tier, seed) + [(job_cubic_interpolate_allN, (seed, 0)), (job_cubic_interpolate_allN, (seed, 1)), (job_cubic_fitbc_allN, (seed, 0)), (job_cubic_fitbc_allN, (seed, 1)), (job_akima_allN, (seed,)), (job_deriv_allN, (seed,))] + [(job_getinterval, ('unbounded',)), (job_getinterval, ('twin',))] + [(job_getinterval_real, (k, seed)) for k in ((3, 4) if tier == 'quick' else (3, 4, 5, 6))] + [(job_grid, ('spline', seed)), (job_grid, ('table', seed))]
+    jobs = jobs_rvc(tier, seed) + [(job_cubic_interpolate_allN, (seed, 0)), (job_cubic_interpolate_allN, (seed, 1)), (job_cubic_fitbc_allN, (seed, 0)), (job_cubic_fitbc_allN, (seed, 1)), (job_akima_allN, (seed,)), (job_deriv_allN, (seed,)), (job_linear_grid_allN, (seed,))] + [(job_getinterval, ('unbounded',)), (job_getinterval, ('twin',))] + [(job_getinterval_real, (k, seed)) for k in ((3, 4) if tier == 'quick' else (3, 4, 5, 6))] + [(job_grid, ('spline', seed)), (job_grid, ('table', seed))]
     if only:
         jobs = [j for j in jobs if re.search(only, j[0].__name__ + str(j[1]))]
     obs = core.pmap(jobs)
